@@ -5,10 +5,12 @@ import (
 	"fmt"
 	"go/ast"
 	"go/parser"
+	"go/scanner"
 	"go/token"
 	"os"
 	"path/filepath"
 	"sort"
+	"strconv"
 	"strings"
 	"text/template"
 	"time"
@@ -59,6 +61,33 @@ func payloadsFor(ctx string) []string {
 }
 
 func payloadFor(ctx string) string { return payloadsFor(ctx)[0] }
+
+// oneGoStringLiteral: src scans (go/scanner) as exactly one STRING token and nothing else.
+func oneGoStringLiteral(src string) bool {
+	var s scanner.Scanner
+	fset := token.NewFileSet()
+	f := fset.AddFile("", fset.Base(), len(src))
+	errs := 0
+	s.Init(f, []byte(src), func(token.Position, string) { errs++ }, 0)
+	_, tok, _ := s.Scan()
+	if tok != token.STRING {
+		return false
+	}
+	_, tok2, lit2 := s.Scan()
+	// the scanner inserts an automatic semicolon ("\n") at the end of input
+	if tok2 == token.SEMICOLON && lit2 == "\n" {
+		_, tok2, _ = s.Scan()
+	}
+	return tok2 == token.EOF && errs == 0
+}
+
+// unquoteIfQuoted returns the tag text of a literal in either form.
+func unquoteIfQuoted(lit string) string {
+	if v, err := strconv.Unquote(lit); err == nil {
+		return v
+	}
+	return lit
+}
 
 // declSkeleton lists the top-level declarations of every Go file of a tree (comments and literal values erased).
 func declSkeleton(dir string) (map[string][]string, bool) {
@@ -238,6 +267,106 @@ func CheckC09(run *ev.Run) {
 		}
 	}
 	st["escaper-inputs"] = len(inputs)
+
+	// (a') PrintTags (Go code that writes struct tags, free text included with --struct-tags description|example) against the Lean model
+	{
+		tagAlpha := []string{"a", "b", " ", "`", "\"", "\\", "\n", "\t", "é", "\ufeff", "\x01", "}", ";", ":", ","}
+		word := func() string {
+			var b strings.Builder
+			for k := r.Intn(6); k >= 0; k-- {
+				b.WriteString(tagAlpha[r.Intn(len(tagAlpha))])
+			}
+			return b.String()
+		}
+		nTags := 300
+		if run.Tier == "thorough" {
+			nTags = 6000
+		}
+		for i := 0; i < nTags; i++ {
+			g := generator.GenSchema{}
+			g.Name = r.Pick([]string{"name", "a-b", "X Y"})
+			g.OriginalName = g.Name
+			g.Required = r.Chance(1, 2)
+			g.IsEmptyOmitted = r.Chance(1, 2)
+			if r.Chance(1, 3) {
+				g.XMLName = r.Pick([]string{"n", "ns:n"})
+			}
+			if r.Chance(2, 3) {
+				g.Description = word()
+			}
+			if r.Chance(1, 2) {
+				g.Example = word()
+			}
+			pool := []string{"description", "yaml", "example", "db", "json", "xml", "description"}
+			r.Shuffle(len(pool), func(i, j int) { pool[i], pool[j] = pool[j], pool[i] })
+			g.StructTags = pool[:r.Intn(5)]
+			if r.Chance(1, 5) {
+				g.CustomTag = "validate:\"required\""
+			}
+			real := g.PrintTags()
+			// the ordered (key, value) list PrintTags assembles (mirror of its first loop; the literal form is the model's business)
+			jsonTag := ""
+			if txt := unquoteIfQuoted(real); strings.HasPrefix(txt, "json:") {
+				if q, err := strconv.QuotedPrefix(txt[5:]); err == nil {
+					jsonTag, _ = strconv.Unquote(q)
+				}
+			}
+			tags := [][2]string{{"json", jsonTag}}
+			have := map[string]bool{"json": true}
+			if g.XMLName != "" {
+				x := g.XMLName
+				if !g.Required && g.IsEmptyOmitted {
+					x += ",omitempty"
+				}
+				tags = append(tags, [2]string{"xml", x})
+				have["xml"] = true
+			}
+			for _, t := range g.StructTags {
+				if have[t] {
+					continue
+				}
+				have[t] = true
+				switch {
+				case t == "example" && g.Example != "":
+					tags = append(tags, [2]string{t, g.Example})
+				case t == "description" && g.Description != "":
+					tags = append(tags, [2]string{t, g.Description})
+				default:
+					tags = append(tags, [2]string{t, jsonTag})
+				}
+			}
+			req, _ := json.Marshal(map[string]interface{}{"op": "text.printTags", "tags": tags, "custom": g.CustomTag})
+			out, merr := m.Call(req)
+			var mr struct {
+				R        string `json:"r"`
+				Out      string `json:"out"`
+				OneToken bool   `json:"oneToken"`
+			}
+			if merr == nil {
+				_ = json.Unmarshal(out, &mr)
+			}
+			run.Traces++
+			run.Case("printTags|" + real)
+			rep := map[string]interface{}{"gen_schema": map[string]interface{}{"Name": g.Name, "Required": g.Required, "IsEmptyOmitted": g.IsEmptyOmitted, "XMLName": g.XMLName,
+				"Description": g.Description, "Example": g.Example, "StructTags": g.StructTags, "CustomTag": g.CustomTag}, "real": real, "model": mr.Out, "tags": tags}
+			if mr.R != "ok" {
+				run.Broken("corr:C09:driver", "model driver failed", rep)
+				continue
+			}
+			// property oracle on the real output: the tag must scan as exactly one Go string literal
+			if !oneGoStringLiteral(real) {
+				st["printTags:NOT-ONE-LITERAL"]++
+				run.Deviation("injection:struct-tag:not-one-literal", "GenSchema.PrintTags writes a struct tag that is not exactly one Go string literal", rep)
+				continue
+			}
+			if mr.Out != real {
+				st["printTags-disagree"]++
+				run.Broken("corr:C09:printTags", "Lean printTags and GenSchema.PrintTags disagree", rep)
+			} else {
+				st["printTags-agree"]++
+			}
+		}
+	}
 
 	// (b) site table
 	sites, err := DiscoverSites()
